@@ -118,6 +118,12 @@ def run_case(case):
 
 
 def child(cases, wfd):
+    try:  # a runaway expansion must fail in this child, not take the machine down
+        import resource
+        resource.setrlimit(resource.RLIMIT_AS, (4 << 30, 4 << 30))
+        resource.setrlimit(resource.RLIMIT_CPU, (600, 600))
+    except Exception:
+        pass
     out = os.fdopen(wfd, "w")
     for c in cases:
         out.write(json.dumps({"start": c["id"]}) + "\n")
